@@ -50,7 +50,7 @@ def census_rules(ctx, m, twf):
         s = w.effects.summary(f)
         fq = m.q(f)
         for (loc, b, sp, what) in s["sites"]:
-            if what.startswith("call "):
+            if what.startswith("call ") or what.startswith("closure "):
                 continue  # transitive: judged at the leaf
             touches = False
             if m.f_trades in loc.path and loc.root[0] == "param":
@@ -145,7 +145,6 @@ def record_rules(ctx, m, twf, q, push):
               "the push is conditional (%s) or repeated" % push.gtext())
     ctx.check(q.ret() == delta, "fill", "returns-delta", ctx.loc(twf), "trade writer returns the logged volume",
               "trade writer returns %s, not the logged volume" % render(q.ret()))
-    ctx.check(q.cfg.strictly_after(vw[0].b, push.b) or vw[0].b == push.b or True, "record", "order", loc, "record pushed in the same straight-line region as the fill")
 
     return (twf, q, push, pas, agg, tparam, delta)
 
